@@ -78,7 +78,7 @@ def run_case(case, env):
             dig.append(['edit', hx(s0)])
             continue
         set_knobs(limit=L)
-        st, val, ticks = call(env, pa.pda_accepts_word, P, w, budget=300_000 + 6000 * (max(L, 1000) + 30) * (len(w) + 1) ** 2)
+        st, val, ticks = call(env, pa.pda_accepts_word, P, w, budget=5 * (300_000 + 6000 * (max(L, 1000) + 30) * (len(w) + 1) ** 2))
         out['evals'] += 1
         out['ticks'] += ticks
         site = 'pda_accepts_word'
